@@ -39,12 +39,12 @@ func (c *RTCase) Sig() string {
 
 // RTScale sets how many cases of each generator a workload produces.
 type RTScale struct {
-	StructCap                                int
-	Singles                                  int
-	Extreme, Random, Runs, Boundary, Huge    int
-	Compositions                             int // N for all-compositions (0 = none)
-	Codecs                                   []int
-	StructPages                              []int
+	StructCap                                  int
+	Singles                                    int
+	Extreme, Random, Runs, Boundary, Huge      int
+	Compositions                               int // N for all-compositions (0 = none)
+	Codecs                                     []int
+	StructPages                                []int
 	MaxRandomRecs, MaxRunsRecs, MaxExtremeRecs int
 }
 
